@@ -379,7 +379,16 @@ def check(pid, tier='quick', verif_seed=0, workers=None, n_runs=None,
                      'seed %s)' % (pid, k.get('text', ''), k['id'],
                                    v['run_seed']))
     reported = []
-    for (clause, sig), (viol, v) in sorted(new.items())[:8]:
+    counts = {}
+    for v in tot['violating']:
+        for viol in v['violations']:
+            counts[(viol['clause'], viol['sig'])] = counts.get(
+                (viol['clause'], viol['sig']), 0) + 1
+    for key, n_ in sorted(counts.items()):
+        lines.append('  signature %s [%s] x%d%s' % (
+            key[0], key[1], n_, '' if key in new else ' (known)'))
+    max_rep = int(os.environ.get('VERIF_MAX_REPORT', 8))
+    for (clause, sig), (viol, v) in sorted(new.items())[:max_rep]:
         plan, sched = v['plan'], v['sched']
         minimised = False
         try:
